@@ -312,6 +312,17 @@ func (b *ByteSlice) DelItem(key Object) *Error {
 }
 
 func (b *ByteSlice) Contains(obj Object) *Bool {
+	switch obj.(type) {
+	case *Byte, *Int, *Float:
+		// A number is looked for among the elements, the way iterating the
+		// slice and comparing would find it
+		for _, v := range b.value {
+			if NewByte(v).Equals(obj) == True {
+				return True
+			}
+		}
+		return False
+	}
 	data, err := AsBytes(obj)
 	if err != nil {
 		return False
